@@ -145,6 +145,8 @@ def znot(x):
 
 
 class Interp:
+    _uid = 0
+
     def __init__(self, interpret_prefixes=("metapype",), unroll=64, bv=None, check_if=True, logic=None, seed=0,
                  forking=False, prefix=(), interner=None):
         self.prefixes = interpret_prefixes
@@ -160,6 +162,8 @@ class Interp:
         self.loops = []
         self.intern = interner if interner is not None else Interner()
         # path-wise mode: every symbolic branch is a decision; one run = one path; heap writes are unconditional
+        Interp._uid += 1
+        self.uid = Interp._uid
         self.forking = forking
         self.prefix = list(prefix)
         self.trace = []
@@ -305,7 +309,7 @@ class Interp:
         if z3.is_const(z) or z3.is_int_value(z) or z3.is_bv_value(z) or self.forking:
             return z
         self.nfresh += 1
-        k = z3.Const("t!%d" % self.nfresh, z.sort())
+        k = z3.Const("t!%d!%d" % (self.uid, self.nfresh), z.sort())      # unique per interpreter: assertions of two runs may share a solver
         self.solver.add(k == z)
         return k
 
@@ -995,6 +999,8 @@ class Interp:
         if isinstance(obj, Sym):
             if obj.kind == "name" and attr in SYM_STR_METHODS:
                 return SymMethod(obj, attr)
+            if self.forking:
+                return getattr(self.realise(obj), attr)      # path-wise mode: the value is realised, the method is the real one
             raise Unsupported("attribute %s of symbolic scalar" % attr)
         if isinstance(obj, SymStr):
             raise Unsupported("method %s of opaque message text" % attr)
